@@ -58,6 +58,10 @@ def step (_ : Unit) (j : Json) : Except String (Unit × Drv.Out) := do
       o := o.diff s!"non-reading WebSocket peer, SendTimeout {st} ms, PingDuration {ping} ms: session ended={ended}, the model (sendMsgWithTimeout's guard) says {writeBounded ping st}"
     if st > 0 && !ended then
       o := o.mon "termination" "ws-not-dropped" s!"a WebSocket peer that stopped reading was not dropped within SendTimeout {st} ms + 3 s (PingDuration {ping} ms)"
+    let left := numI (out.getObjValD "leftover")
+    if left > 0 then
+      o := o.diff s!"WebSocket session (SendTimeout {st} ms, PingDuration {ping} ms): {left} goroutine(s) of the relay are left after the session and the server were closed"
+      o := o.mon "termination" "ws-goroutine-left" s!"{left} goroutine(s) of the relay outlive the WebSocket session (SendTimeout {st} ms, PingDuration {ping} ms): {(out.getObjValD "sample").compress.take 400}"
     pure ((), o)
   else throw s!"unknown op {op}"
 
